@@ -384,3 +384,109 @@ Theorem C03_parsed_split_first_label : forall m pos lim p,
     end.
 Proof. exact C03.ProofsSuffix.parsed_split_first_label. Qed.
 Print Assumptions C03_parsed_split_first_label.
+(* ---- proof-widening round (ProofsW / ProofsX / ProofsY): exactness and
+   totality of the wire and text constructors, split-then-chain round trip,
+   and completeness of the builder on the valid names *)
+From DV Require C03.ProofsW C03.ProofsX C03.ProofsY.
+Theorem C03_name_parse_roundtrip : forall n rest, valid_abs n ->
+  name_parse (wire_abs n ++ rest) = Ok (wire_abs n).
+Proof. exact C03.ProofsW.name_parse_roundtrip. Qed.
+Print Assumptions C03_name_parse_roundtrip.
+Theorem C03_name_parse_iff : forall b w, wf_bytes b ->
+  (name_parse b = Ok w <-> exists n rest, valid_abs n /\ w = wire_abs n /\ b = w ++ rest).
+Proof. exact C03.ProofsW.name_parse_iff. Qed.
+Print Assumptions C03_name_parse_iff.
+Theorem C03_name_parse_total : forall b, no_panic (name_parse b).
+Proof. exact C03.ProofsW.name_parse_total. Qed.
+Print Assumptions C03_name_parse_total.
+Theorem C03_uncertain_check_total : forall b, no_panic (uncertain_check b).
+Proof. exact C03.ProofsW.uncertain_check_total. Qed.
+Print Assumptions C03_uncertain_check_total.
+Theorem C03_uncertain_relative_iff : forall b, wf_bytes b ->
+  (uncertain_check b = Ok false <-> exists n, valid_rel n /\ n <> [] /\ b = wire_rel n).
+Proof. exact C03.ProofsW.uncertain_relative_iff. Qed.
+Print Assumptions C03_uncertain_relative_iff.
+Theorem C03_split_chain_roundtrip : forall absolute n i l r, valid_rel n ->
+  n_split absolute (wire_of absolute n) i = Ok (l, r) ->
+  l ++ r = wire_of absolute n /\ chain_new (length l) (length r) = Ok tt /\
+  (exists a, valid_rel a /\ l = wire_rel a) /\ (exists c, valid_rel c /\ r = wire_of absolute c).
+Proof. exact C03.ProofsW.split_chain_roundtrip. Qed.
+Print Assumptions C03_split_chain_roundtrip.
+Theorem C03_from_chars_total : forall cap cs,
+  no_panic (name_from_chars cap cs) /\ no_panic (rel_from_chars cap cs) /\
+  no_panic (uncertain_from_chars cap cs) /\ no_panic (serde_de_rel cap cs).
+Proof. exact C03.ProofsX.from_chars_total. Qed.
+Print Assumptions C03_from_chars_total.
+Theorem C03_from_chars_valid_cap : forall cap cs,
+  (forall w, name_from_chars cap cs = Ok w -> exists n, valid_abs n /\ w = wire_abs n) /\
+  (forall w, rel_from_chars cap cs = Ok w -> exists n, valid_rel n /\ w = wire_rel n) /\
+  (forall f w, uncertain_from_chars cap cs = Ok (f, w) ->
+      exists n, valid_rel n /\ w = if f then wire_abs n else wire_rel n) /\
+  (forall w, serde_de_rel cap cs = Ok w -> exists n, valid_rel n /\ w = wire_rel n).
+Proof. exact C03.ProofsX.from_chars_valid_cap. Qed.
+Print Assumptions C03_from_chars_valid_cap.
+Theorem C03_display_injective : forall n1 n2, valid_abs n1 -> valid_abs n2 ->
+  (display_name n1 = display_name n2 -> n1 = n2) /\ (display_rel n1 = display_rel n2 -> n1 = n2).
+Proof. exact C03.ProofsX.display_injective. Qed.
+Print Assumptions C03_display_injective.
+Theorem C03_text_reparse_stable : forall cs,
+  (forall w, name_from_chars None cs = Ok w ->
+     exists n, valid_abs n /\ w = wire_abs n /\ name_from_chars None (display_name n) = Ok w) /\
+  (forall w, rel_from_chars None cs = Ok w ->
+     exists n, valid_rel n /\ w = wire_rel n /\ rel_from_chars None (display_rel n) = Ok w).
+Proof. exact C03.ProofsX.text_reparse_stable. Qed.
+Print Assumptions C03_text_reparse_stable.
+Theorem C03_builder_complete_labels : forall n, valid_rel n ->
+  fst (run_log None b_init (map OLabel n)) = repeat (Ok tt) (length n) /\
+  b_finish (run None b_init (map OLabel n)) = Ok (wire_rel n) /\
+  b_into_name None (run None b_init (map OLabel n)) = Ok (wire_abs n).
+Proof. exact C03.ProofsY.builder_complete_labels. Qed.
+Print Assumptions C03_builder_complete_labels.
+Theorem C03_builder_complete_octets : forall n, valid_rel n ->
+  fst (run_log None b_init (C03.ProofsY.octet_ops n)) = repeat (Ok tt) (length (C03.ProofsY.octet_ops n)) /\
+  b_finish (run None b_init (C03.ProofsY.octet_ops n)) = Ok (wire_rel n) /\
+  b_into_name None (run None b_init (C03.ProofsY.octet_ops n)) = Ok (wire_abs n).
+Proof. exact C03.ProofsY.builder_complete_octets. Qed.
+Print Assumptions C03_builder_complete_octets.
+Theorem C03_chain_abs_iff : forall l r, valid_rel l -> valid_abs r ->
+  (chain_new (wire_len l) (wire_len r + 1) = Ok tt <-> valid_abs (l ++ r)).
+Proof. exact C03.ProofsW.chain_abs_iff. Qed.
+Print Assumptions C03_chain_abs_iff.
+Theorem C03_chain_rel_complete : forall l r, valid_rel (l ++ r) ->
+  chain_new (wire_len l) (wire_len r) = Ok tt.
+Proof. exact C03.ProofsW.chain_rel_complete. Qed.
+Print Assumptions C03_chain_rel_complete.
+(* ---- Name::reverse_from_addr for every address (builder sequence of both
+   arms; suffix labels and arm shape are T1 items) *)
+From DV Require C03.ProofsV.
+Theorem C03_reverse_v4_valid : forall a b c d, (a < 256)%N -> (b < 256)%N -> (c < 256)%N -> (d < 256)%N ->
+  let n := [dec_digits d; dec_digits c; dec_digits b; dec_digits a; rev_v4_label1; rev_v4_label2] in
+  fst (run_log None b_init (C03.ProofsV.reverse_v4_ops a b c d)) = repeat (Ok tt) 6 /\
+  valid_abs n /\
+  b_into_name None (run None b_init (C03.ProofsV.reverse_v4_ops a b c d)) = Ok (wire_abs n).
+Proof. exact C03.ProofsV.reverse_v4_valid. Qed.
+Print Assumptions C03_reverse_v4_valid.
+Theorem C03_reverse_v6_valid : forall o, wf_bytes o -> (length o <= 16)%nat ->
+  let ops := C03.ProofsV.reverse_v6_ops o in
+  let n := map C03.ProofsV.label_of ops in
+  fst (run_log None b_init ops) = repeat (Ok tt) (2 * length o + 2) /\
+  valid_abs n /\ b_into_name None (run None b_init ops) = Ok (wire_abs n) /\
+  n = flat_map (fun x => [[hex_char x]; [hex_char (x / 16)]]) (rev o) ++ [rev_v6_label1; rev_v6_label2].
+Proof. exact C03.ProofsV.reverse_v6_valid. Qed.
+Print Assumptions C03_reverse_v6_valid.
+Theorem C03_append_origin_exact : forall cap ops og, Forall wf_op ops -> hits_relname_255 cap ops = false ->
+  Forall valid_label og ->
+  let n := final_name (a_run cap a_init ops) in
+  b_append_origin cap (run cap b_init ops) og =
+    (if (254 <? wire_len n + wire_len og)%nat then Err E_LongName
+     else if fits cap (a_run cap a_init ops) (wire_len og + 1) then Ok (wire_abs (n ++ og))
+     else Err E_ShortBuf) /\
+  ((wire_len n + wire_len og <= 254)%nat -> valid_abs (n ++ og)).
+Proof. exact C03.ProofsY.append_origin_exact. Qed.
+Print Assumptions C03_append_origin_exact.
+Theorem C03_relative_absolute_roundtrip : forall n, valid_abs n ->
+  (do r <- n_into_relative (wire_abs n); n_into_absolute None r) = Ok (wire_abs n) /\
+  (do a <- n_into_absolute None (wire_rel n); n_into_relative a) = Ok (wire_rel n) /\
+  (do r <- n_into_relative (wire_abs n); n_chain_root r) = Ok (wire_abs n).
+Proof. exact C03.ProofsW.relative_absolute_roundtrip. Qed.
+Print Assumptions C03_relative_absolute_roundtrip.
